@@ -341,8 +341,11 @@ def handle (op : String) (args res : List String) : Option Verdict :=
                         && sameVal fs s && ft.isFinite && Dy.eq (Dy.add fs.toDy ft.toDy) exact     -- fastsum (|u| ≥ |v|): same contract
             -- near overflow of the intermediate differences the contract is not promised
             let big := Dy.le (two (f.emax - 2)) (Dy.abs exact) || Dy.le (two (f.emax - 2)) (Dy.abs u.toDy) || Dy.le (two (f.emax - 2)) (Dy.abs v.toDy)
-            if c1 && (c2 || big) then .ok
-            else .bad s!"sum[{tag}] u={showG u} v={showG v} s={showG s} t={showG t} rounded={c1} exact={c2}"
+            -- double: fastsum bit for bit against the model
+            let c3 := tag != "d" || !(Dy.le (Dy.abs v.toDy) (Dy.abs u.toDy)) ||
+              (sameVal (Accum.fastsum u v).1 fs && sameVal (Accum.fastsum u v).2 ft)
+            if c1 && (c2 || big) && c3 then .ok
+            else .bad s!"sum[{tag}] u={showG u} v={showG v} s={showG s} t={showG t} rounded={c1} exact={c2} fastsum-model={c3}"
       | _, _, _ => .bad "parse"
     | _, _ => .bad "parse"
   | "gangdiff" => some <|
